@@ -182,8 +182,23 @@ type stepRun struct {
 	raw     *core.Stride
 }
 
+var ctxForCount int
+
+// ctxFor: the context of one Step/Walk.  An endless script is stopped after 60 ms, in turn by a deadline, by a
+// cancellation of a context that has no deadline, and by a cancellation long before a far deadline.
 func ctxFor(loop bool) (context.Context, context.CancelFunc) {
 	if loop {
+		ctxForCount++
+		switch ctxForCount % 3 {
+		case 1:
+			ctx, cancel := context.WithCancel(context.Background())
+			t := time.AfterFunc(60*time.Millisecond, cancel)
+			return ctx, func() { t.Stop(); cancel() }
+		case 2:
+			ctx, cancel := context.WithTimeout(context.Background(), 30*time.Second)
+			t := time.AfterFunc(60*time.Millisecond, cancel)
+			return ctx, func() { t.Stop(); cancel() }
+		}
 		return context.WithTimeout(context.Background(), 60*time.Millisecond)
 	}
 	return context.WithTimeout(context.Background(), 20*time.Second)
